@@ -170,7 +170,7 @@ fn do_check(prop: &str, tier: Tier, seed: u64) -> i32 {
         eprintln!("unknown property {}", prop);
         return 2;
     }
-    let deadline = std::env::var("VH_DEADLINE_S").ok().and_then(|s| s.parse().ok()).unwrap_or(tier.pick(240u64, 3000u64));
+    let deadline = std::env::var("VH_DEADLINE_S").ok().and_then(|s| s.parse().ok()).unwrap_or(tier.pick(600u64, 7200u64));
     let mut shard = Shard::default();
     let mut extra = Map::new();
     let passes: Vec<String> = match prop {
